@@ -189,8 +189,12 @@ def check_desc(res, model, desc, tag, channel_b=False):
                     decl = list(re.finditer(r"(?:realtype|double) k\[NREACTIONS\]\s*=\s*\{\s*(?:0(?:\.0*)?)?\s*\};", before))
                     fn_start = max(before.rfind("\nint "), before.rfind("\nvoid "), before.rfind("__global__ void"))
                     if not decl or decl[-1].start() < fn_start:
-                        bare = re.search(r"(?:static\s+)?(?:realtype|double) k\[NREACTIONS\]\s*;|static\s+(?:realtype|double) k\[NREACTIONS\]", src[max(fn_start, 0):m.start()])
-                        if bare:
+                        seg = src[max(fn_start, 0):m.start()]
+                        bare = re.search(r"(?:static\s+)?(?:realtype|double) k\[NREACTIONS\]\s*;|static\s+(?:realtype|double) k\[NREACTIONS\]", seg)
+                        # a declaration without initialiser followed by something that writes k before the call (a zeroing loop, memset,
+                        # std::fill, a helper that is handed k): the reader cannot tell what it writes; the compiled sequence drivers decide
+                        writes = bare and not bare.group(0).startswith("static") and re.search(r"\bk\s*\[[^\]]*\]\s*=[^=]|\(\s*k\s*[,)]|\bk\s*,|\bk\s*\+", seg[bare.end():])
+                        if bare and not writes:
                             res.violation("oracle", f"{where}: k[] is not zero-initialised before EvalRates is called ({bare.group(0)!r}): a reaction outside its window keeps an indeterminate or stale coefficient", case)
                         else:
                             res.corr_disagreements += 1
